@@ -3,11 +3,10 @@
 set -u
 cd "$(dirname "$0")"
 . ./env.sh
-mkdir -p .work .bin evidence replays
+mkdir -p .work .bin evidence/parts replays
 rc=0
-for spec in $(cut -f2,3 checks.tsv | sort -u | tr '\t' ':'); do
-  cmd=${spec%%:*}; race=${spec##*:}
+while IFS=$'\t' read -r cmd race; do
   echo "setup: building $cmd race=$race"
   if [ "$race" = 1 ]; then ./check.sh build "$cmd" race || rc=1; else ./check.sh build "$cmd" || rc=1; fi
-done
+done < <(python3 tools/parts.py builds)
 exit $rc
